@@ -52,6 +52,34 @@ Definition names {V} (l : list (string * V)) : list string := map fst l.
 Definition label_b (L : string) (nms : list string) : bool :=
   if String.eqb L "" then true else forallb (fun n => negb (labelled n) || has_label L n) nms.
 
+(* The un-labelled names an export can hold (the files convert() makes, the targets of _FILE_RENAMES, the uuids
+   table); Proofs2.OUT_TABLE_eq: this IS the table of C13_label_files / C13_label_names. *)
+Definition OUT_TABLE : list string := [
+  "clusters.channels.npy"; "clusters.peakToTrough.npy"; "clusters.amps.npy"; "channels.rawInd.npy";
+  "spikes.times.npy"; "spikes.samples.npy"; "spikes.amps.npy"; "templates.amps.npy"; "templates.waveforms.npy";
+  "templates.waveformsChannels.npy"; "clusters.waveforms.npy"; "clusters.waveformsChannels.npy";
+  "spikes.depths.npy"; "clusters.depths.npy";
+  "params.py"; "cluster_KSLabel.tsv"; "spikes.clusters.npy"; "spikes.templates.npy"; "channels.localCoordinates.npy";
+  "channels.probes.npy"; "channels.labels.npy"; "clusters.probes.npy"; "clusters.shanks.npy";
+  "_kilosort_whitening.matrix.npy"; "_phy_spikes_subset.channels.npy"; "_phy_spikes_subset.spikes.npy";
+  "_phy_spikes_subset.waveforms.npy"; "drift_depths.um.npy"; "drift.times.npy"; "drift.um.npy";
+  "clusters.uuids.csv"; "params.py"; "cluster_KSLabel.tsv"].
+(* "Inserted into EVERY file": an observed spikes./clusters./templates./channels. name must be the labelled image
+   of an un-labelled name of the table.  (has_label alone is fooled by a label that equals an attribute name:
+   the un-labelled spikes.templates.npy "ends with .templates".) *)
+Definition Label_Names_Spec (L : string) (nms : list string) : Prop :=
+  forall n, In n nms -> labelled n = true -> exists n0, In n0 OUT_TABLE /\ n = relabel L n0.
+Definition label_names_b (L : string) (nms : list string) : bool :=
+  forallb (fun n => negb (labelled n) || existsb (fun n0 => String.eqb n (relabel L n0)) OUT_TABLE) nms.
+Lemma label_names_b_spec L nms : label_names_b L nms = true <-> Label_Names_Spec L nms.
+Proof.
+  unfold label_names_b, Label_Names_Spec. rewrite forallb_forall. split.
+  - intros H n Hin Hl. specialize (H _ Hin). rewrite Hl in H. cbn [negb orb] in H.
+    apply existsb_exists in H as (n0 & H0 & E). apply String.eqb_eq in E. eauto.
+  - intros H n Hin. destruct (labelled n) eqn:Hl; [|reflexivity]. cbn [negb orb].
+    destruct (H _ Hin Hl) as (n0 & H0 & ->). apply existsb_exists. exists n0. split; [exact H0|apply String.eqb_refl].
+Qed.
+
 (* ---- frame of the source directory ---- *)
 Definition subset_of (a b : list string) : bool := forallb (fun x => str_in x b) a.
 Definition frame_b (had_temp has_raw : bool) (changed deleted new_names : list string) : bool :=
